@@ -148,15 +148,22 @@ func c10Corpus(scs []*c10Scenario, add func(*c10Plan)) {
 			}
 		}
 		// a control in the middle of a series that leaves a negative / too large old offset behind
+		off := int64(0)
 		for i, m := range sc.Opt.Msgs {
+			if _, ok := m.(*pwr.BsdiffHeader); ok {
+				off = 0
+			}
 			ct, ok := m.(*bsdiff.Control)
 			if !ok || ct.Eof || i+1 >= len(sc.Opt.Msgs) {
 				continue
 			}
+			after := off + int64(len(ct.Add))
+			off = after + ct.Seek
 			if nx, ok := sc.Opt.Msgs[i+1].(*bsdiff.Control); !ok || nx.Eof {
 				continue
 			}
-			for _, v := range []int64{-(1 << 40), 1 << 40} {
+			// -after-5: the old offset becomes -5 (inside "chunk 0" of the LRU file cache)
+			for _, v := range []int64{-after - 5, -(1 << 40), 1 << 40} {
 				s := sc.Opt.clone()
 				s.Msgs[i].(*bsdiff.Control).Seek = v
 				plan(sc, "opt", c10FPatFresh, fmt.Sprintf("Control %d seek=%d in the middle of a bsdiff series (old offset outside the old file)", i, v), s)
@@ -179,11 +186,16 @@ func c10Corpus(scs []*c10Scenario, add func(*c10Plan)) {
 		for i, m := range sc.Plain.Msgs {
 			if sh, ok := m.(*pwr.SyncHeader); ok && sh.FileIndex == 1 {
 				s := sc.Plain.clone()
+				// the file's own full-file op gets span -1 (it then accounts for -1 reused bytes), and a
+				// block of the empty old file 0 follows: file 0 becomes the best "origin" of this file
+				if op, ok := s.Msgs[i+1].(*pwr.SyncOp); !ok || op.Type != pwr.SyncOp_BLOCK_RANGE {
+					break
+				}
+				s.Msgs[i+1].(*pwr.SyncOp).BlockSpan = -1
 				ins := []proto.Message{
-					&pwr.SyncOp{Type: pwr.SyncOp_BLOCK_RANGE, FileIndex: 1, BlockIndex: 0, BlockSpan: -1},
 					&pwr.SyncOp{Type: pwr.SyncOp_BLOCK_RANGE, FileIndex: 0, BlockIndex: 0, BlockSpan: 1},
 				}
-				s.Msgs = append(s.Msgs[:i+1:i+1], append(ins, s.Msgs[i+1:]...)...)
+				s.Msgs = append(s.Msgs[:i+2:i+2], append(ins, s.Msgs[i+2:]...)...)
 				plan(sc, "plain", c10FRediff, "block ranges naming an empty old file (rediff maps to it, bsdiff on empty input)", s)
 				plan(sc, "plain", c10FPatFresh, "block ranges naming an empty old file", s)
 				break
